@@ -7,6 +7,11 @@ import (
 
 // parse and return tag and length, also the length of two parts
 func parseTagAndLength(bytes []byte) (r tagAndLen, off int, e error) {
+	total := len(bytes)
+	if total == 0 {
+		e = fmt.Errorf("no data left to parse tag and length")
+		return r, off, e
+	}
 	off++
 	r.class = int(bytes[0] >> 6)
 	r.constructed = (bytes[0] & 0x20) != 0
@@ -42,6 +47,10 @@ func parseTagAndLength(bytes []byte) (r tagAndLen, off int, e error) {
 			return r, off, e
 		}
 		off++
+		if off+len > total {
+			e = fmt.Errorf("length octets out of range")
+			return r, off, e
+		}
 		var val int64
 		val, e = parseInt64(bytes[off : off+len])
 		if e != nil {
